@@ -19,14 +19,16 @@
 (* For every row the log is folded with Writer!FwStep / Writer!ObsStep     *)
 (* (the very functions of the fmtWriter state machine, as written) and the *)
 (* writer model Writer!Resp is replayed next to it.  Then                  *)
-(*   Equipment : the instrumented writer behaved as the writer model says  *)
-(*               (Resp, FailsAtCapacityP, dlen = accepted).  A failure is  *)
-(*               a fault of the test equipment or of the model: exit 2.    *)
 (*   Law       : the C19 predicates Writer!*P hold of what WriteTo         *)
-(*               returned.  A failure is a violation of the property.      *)
-(*   Model     : the state machine as written predicts the returned        *)
-(*               (n, e).  If the laws hold but this fails the model does   *)
-(*               not describe the code: exit 2.                            *)
+(*               returned.  A failure is a violation of the property; all  *)
+(*               broken laws of a row are reported, not only the first.    *)
+(*   Equipment : (rows whose laws hold) the instrumented writer behaved as *)
+(*               the writer model says (Resp on every call,                *)
+(*               FailsAtCapacityP, dlen = accepted).  A failure is a fault *)
+(*               of the test equipment or of the model: exit 2.            *)
+(*   Model     : (rows whose laws hold) the state machine as written       *)
+(*               predicts the returned (n, e).  A failure means the model  *)
+(*               does not describe the code: exit 2.                       *)
 (* Every failing row is printed (BADRUN kind {laws} id), TLC runs with     *)
 (* -continue.  Rows are handed out in blocks so that all workers judge.    *)
 (***************************************************************************)
